@@ -2,7 +2,10 @@
 
 model      : lean/SarpyModel/Spec/NitfAssembly.lean (`assemble`, `assembleCollection` -> a `Spec.Segment` tree; `formattedSrc`, the
              specification of where MIL-STD-2500C stores every pixel), theorems in lean/SarpyModel/Props/C01Nitf.lean
-tie        : correspondence on REAL files.  Every file is assembled by hand here (file header and image subheaders through sarpy's
+tie        : (1) translator: the orientation tables (which transpose_axes / reverse_axes the outermost segment gets per IMODE) are
+             regenerated from the current source by translate/gen_nitf_orient.py on every run and bridged to the model by `decide`
+             (gen_orient_eq_spec, gen_orient_complete, ...);
+             (2) correspondence on REAL files.  Every file is assembled by hand here (file header and image subheaders through sarpy's
              element classes, mask subheader and pixel bytes laid out by this module following the standard, sharing no code with the
              reader): IMODE B / P / R / S, 1-4 bands, 8 / 16 / 32 bit, block grids with NPPBH / NPPBV = 0, exact grids, pad pixels,
              block masks with absent blocks and shuffled recorded blocks, I/Q and Q/I band pairs, several image segments stacked by rows.
@@ -25,15 +28,19 @@ import struct
 import numpy
 
 ABSENT = 0xFFFFFFFF
-NITF_MODULE = 'SarpyModel.Props.C01Nitf'
+NITF_MODULE = 'SarpyModel.Props.C01NitfBridge'      # imports Props/C01Nitf*.lean and the regenerated Gen/NitfOrient.lean
 NITF_NS = 'Sarpy.Props.C01.Nitf'
-REQUIRED_NITF_FULL = [
-    'bounds_eq', 'fullOnto_mkBlks', 'blockChild_full', 'grid_hit', 'grid_miss',
-    'assemble_wf', 'assemble_shape', 'assemble_raw_shape', 'assemble_spec', 'assemble_read_spec', 'leaf_file_offset',
-    'assembleCollection_wf', 'assembleCollection_shape', 'assembleCollection_spec',
+REQUIRED_NITF = [
+    # the layers of the proof
+    'bounds_eq', 'fullOnto_mkBlks', 'blockChild_full', 'blockChild_wf', 'grid_hit', 'grid_miss', 'rawBPR_get', 'rawS_get',
+    'orientBPR_ok', 'orientLast_ok', 'wrap_wf', 'wrap_fshape', 'wrap_spec',
+    # one image segment
+    'assemble_wf', 'assemble_shape', 'assemble_raw_shape', 'assemble_spec', 'assemble_read_spec', 'leaf_file_offset', 'exH_valid',
+    # several image segments stacked by rows
+    'limits_stacked', 'stacked_get', 'assembleCollection_wf', 'assembleCollection_shape', 'assembleCollection_spec',
+    # bridge: the model's orientation tables = the tables regenerated from the current Python (translate/gen_nitf_orient.py)
+    'gen_orient_eq_spec', 'gen_orient_complete', 'gen_transpose_eq_spec', 'gen_transpose_complete', 'orientBPR_bands',
 ]
-
-REQUIRED_NITF = ['stub']
 
 KEY_R = 'nitf-reader-imode-r-refused'
 KEY_T = 'nitf-reader-complex-pair-transpose-rank'
@@ -660,8 +667,20 @@ def check(plan_, ans, tmpdir):
     return dis, fails, stats
 
 
+def regenerate(chk=None):
+    """regenerate Gen/NitfOrient.lean from the current source (call before chk.prove builds NITF_MODULE)"""
+    import sys
+    from common import VERIF
+    sys.path.insert(0, os.path.join(VERIF, 'translate'))
+    import gen_nitf_orient
+    info = gen_nitf_orient.generate(os.path.join(VERIF, 'lean', 'SarpyModel', 'Gen', 'NitfOrient.lean'))
+    if chk is not None:
+        chk.coverage['translator_nitf_orient'] = info
+    return info
+
+
 def obligations(chk, broken):
-    """audit Props/C01Nitf.lean (add NITF_MODULE to the chk.prove targets so that it is built)"""
+    """audit Props/C01Nitf*.lean (add NITF_MODULE to the chk.prove targets so that it is built)"""
     import segmodel
     segmodel._obligations(chk, broken, NITF_MODULE, NITF_NS, REQUIRED_NITF, 'C01Nitf')
 
